@@ -263,6 +263,8 @@ def zero_relation(test, pol=True, ints=()):
                (">", -1): ">="}.get((rel, k))
         if rel is None:
             return None
+    else:
+        return None
     if not pol:
         rel = _NOT[rel]
     return subj, rel
